@@ -214,6 +214,7 @@ func init() {
 	V("AllocLimit", func(fr *frame, args []value) value { needEx(fr).AllocLimit = asInt64(args[0]); return nil })
 	V("ForkLimit", func(fr *frame, args []value) value { needEx(fr).ForkLimit = int(asInt64(args[0])); return nil })
 	V("Tier", func(fr *frame, args []value) value { return Tier })
+	V("AllowTagsInFresh", func(fr *frame, args []value) value { needEx(fr).AllowTagsInFresh = true; return nil })
 	V("Log", func(fr *frame, args []value) value { return nil })
 
 	// crypto/rand
@@ -251,8 +252,29 @@ func (e *Explorer) FreshCat(cat string, n int) []value {
 	e.freshCat[cat]++
 	e.freshSizes[cat] = append(e.freshSizes[cat], n)
 	out := make([]value, n)
+	ts := make([]*smt.Term, n)
 	for i := range out {
-		out[i] = sym{e.Ctx.Var(fmt.Sprintf("fr_%s_%d_%d", cat, k, i), 8)}
+		ts[i] = e.Ctx.Var(fmt.Sprintf("fr_%s_%d_%d", cat, k, i), 8)
+		out[i] = sym{ts[i]}
+	}
+	if !e.AllowTagsInFresh && (cat == "ct" || cat == "wrap" || cat == "key") {
+		// modelling assumption (stated in the evidence): opaque crypto outputs contain no envelope tag sequence
+		c := e.Ctx
+		var cs []*smt.Term
+		run := func(sym byte, k int) {
+			for i := 0; i+k <= n; i++ {
+				var eqs []*smt.Term
+				for j := 0; j < k; j++ {
+					eqs = append(eqs, c.Eq(ts[i+j], c.Const(uint64(sym), 8)))
+				}
+				cs = append(cs, c.BNot(c.BAnd(eqs...)))
+			}
+		}
+		run('%', 3)
+		run('"', 4)
+		if len(cs) > 0 {
+			e.addPCRaw(c.BAnd(cs...))
+		}
 	}
 	return out
 }
